@@ -25,7 +25,7 @@ GEN_OBLIGATION = {
     'QuantityImpl': 'Proofs/GenQuantityEq.vo', 'OpsImpl': 'Proofs/GenOpsEq.vo',
     'MoneyConvImpl': 'Proofs/GenMoneyConvEq.vo', 'ConvStackImpl': 'Proofs/GenConvStackEq.vo',
     'HashImpl': 'Proofs/GenHashEq.vo', 'EffectsImpl': 'Proofs/EffectsAtomic.vo',
-    'RoundingImpl': 'Proofs/RoundingImplSpec.vo',
+    'RoundingImpl': 'Proofs/RoundingImplSpec.vo', 'AllocImpl': 'Proofs/GenAllocEq.vo',
 }
 
 
